@@ -389,6 +389,13 @@ def check_property(prop, tier, seed, only=None, jobs=0, do_replay=True, write_ev
                "kani_cmd": r["cmd"], "harness_path": r["parsed"].get("harness_path"), "native": None}
         path = os.path.join(VERIF, "replays", "%s-%s.json" % (prop, spec["name"]))
         mode = spec.get("replay", "playback")
+        # Some assertions of a playback harness are evaluated in the model run only (they need the model's log of
+        # successful opens, which the native twin - real AEAD - does not have). If every failed assertion is of that
+        # kind, native replay cannot speak: the counterexample is reported from the model run, like a model harness.
+        mo = spec.get("model_only") or []
+        if mode == "playback" and mo and all(any(m in (f["desc"] or "") for m in mo) for f in new):
+            mode = "model"
+            spec = dict(spec, replay_note="the failed assertion is evaluated in the model run only (it needs the model's log of authenticated chunks)")
         reproduced = None
         if do_replay and mode == "playback":
             pr = run_harness(spec, slots[0], prop, logdir, playback=True)
